@@ -573,12 +573,37 @@ func runC19(c *Ctx, idx int) {
 		n = 150
 	}
 	pool := genomePool(r)
+	// the series handed out for the previous experiment: they must not change when the next one is computed
+	var held, heldCopy [][]float64
 	for i := 0; i < n && !c.Violated(); i++ {
 		se := genSynthExperiment(r, pool)
 		c.Count("experiments", 1)
 		if kind, msg := checkAggregates(c, se, se.exp, true); kind != "" {
 			c.Violate(kind, map[string]interface{}{"experiment": se.brief()}, "%s", msg)
 			return
+		}
+		for k := range held {
+			if !vecBitsEqual(held[k], heldCopy[k]) {
+				c.Violate("agg/result-not-stable", map[string]interface{}{"experiment": se.brief()}, "a result series returned for the previous experiment changed while the statistics of the next one were computed")
+				return
+			}
+		}
+		held, heldCopy = nil, nil
+		hold := func(x []float64) {
+			held = append(held, x)
+			heldCopy = append(heldCopy, append([]float64{}, x...))
+		}
+		hold(se.exp.BestFitness())
+		hold(se.exp.BestComplexity())
+		hold(se.exp.AvgDiversity())
+		hold(se.exp.EpochsPerTrial())
+		for ti := range se.exp.Trials {
+			hold(se.exp.Trials[ti].Diversity())
+			hold(se.exp.Trials[ti].ChampionsFitness())
+			fa, aa, ca := se.exp.Trials[ti].Average()
+			hold(fa)
+			hold(aa)
+			hold(ca)
 		}
 		solved := 0
 		for _, gens := range se.trials {
